@@ -52,6 +52,8 @@ def run (ctx):
   ctx.floor('framing loops with roles assigned', n_loops, 2)
   _buffers(ctx, repo)
   _decoder_table(ctx, repo)
+  # ---- mechanisms this property shares with others: their checks' rules about these functions are obligations here too
+  ctx.include('C01', ['_unpack_nx_vendor'], "the vendor decode hook sits in the controller's unpacker table")
 
 def _loop (ctx, repo, f, L):
   g = L.g; mod = f.module
